@@ -24,9 +24,9 @@ def obs_invariants():
 
 # property -> what is run.  gated/free: (families, episodes quick, episodes thorough)
 PLAN = {
-    'C01': {'gated': (['basic', 'ctl', 'cancel', 'pool', 'batch', 'barrier', 'tune'], 64, 750), 'free': (['basic', 'ctl', 'pool'], 64, 1200), 'model': ['MC_core']},
+    'C01': {'gated': (['basic', 'ctl', 'cancel', 'pool', 'batch', 'barrier', ('tune', 2)], 72, 800), 'free': (['basic', 'ctl', 'pool'], 64, 1200), 'model': ['MC_core']},
     'C02': {'gated': (['ctl', 'pool', 'basic', 'barrier', 'bind2'], 80, 750), 'free': (['ctl', 'pool'], 64, 1200), 'model': ['MC_core']},
-    'C03': {'gated': (['basic', 'ctl', 'cancel', 'pool', 'barrier', 'batch', 'tune'], 64, 750), 'free': (['basic', 'ctl', 'pool', 'cancel'], 64, 1200), 'model': ['MC_core']},
+    'C03': {'gated': (['basic', 'ctl', 'cancel', 'pool', 'barrier', 'batch', ('tune', 4)], 80, 900), 'free': (['basic', 'ctl', 'pool', 'cancel'], 64, 1200), 'model': ['MC_core']},
     'C05': {'gated': (['handle', 'basic', 'cancel', 'batch'], 64, 750), 'free': (['handle', 'batch'], 64, 1200), 'model': ['MC_core']},
     'C06': {'gated': (['barrier', 'ctl', 'cancel'], 64, 750), 'free': (['barrier', 'ctl'], 64, 1200), 'model': ['MC_core']},
     'C07': {'gated': (['handle', 'basic', 'batch'], 64, 750), 'free': (['handle', 'batch'], 64, 1200), 'model': []},
@@ -36,12 +36,12 @@ PLAN = {
     'C04': {'gated': (['basic', 'multi', 'barrier', 'cancel'], 64, 750), 'free': (['basic'], 48, 800), 'model': []},
     'C11': {'gated': (['adapter'], 60, 625), 'free': (['adapter'], 48, 800), 'model': [], 'crash': (40, 600)},
     'C12': {'gated': (['adapter'], 60, 625), 'free': (['adapter'], 48, 800), 'model': []},
-    'C13': {'gated': (['dist', 'adapter'], 60, 625), 'free': (['dist'], 64, 1000), 'model': []},
+    'C13': {'gated': (['dist', 'adapter', 'distbind'], 60, 625), 'free': (['dist'], 64, 1000), 'model': []},
     'C14': {'gated': (['life'], 48, 375), 'free': (['life'], 48, 600), 'model': [], 'life_exhaustive': (3, 4)},
     'C15': {'gated': (['multi'], 80, 750), 'free': (['multi'], 32, 600), 'model': []},
     'C16': {'gated': (['basic', 'handle', 'cancel', 'batch'], 64, 750), 'free': (['basic', 'handle'], 96, 2400), 'model': ['MC_core']},
     'C17': {'gated': (['basic', 'multi', 'cancel', 'ctl'], 64, 750), 'free': (['basic', 'multi'], 64, 1200), 'model': []},
-    'C18': {'gated': (['pool', 'ctl', 'tune'], 64, 750), 'free': (['pool'], 64, 1200), 'model': []},
+    'C18': {'gated': (['pool', 'ctl', ('tune', 2)], 64, 750), 'free': (['pool'], 64, 1200), 'model': []},
 }
 
 
@@ -214,7 +214,7 @@ def replay_prog(prog, choices):
     return p
 
 
-RACE_FAMS = ['tune', 'bind2', 'basic', 'ctl', 'cancel', 'batch', 'handle', 'pool', 'multi', 'dist', 'adapter', 'life', 'barrier']
+RACE_FAMS = ['tune', 'bind2', 'distbind', 'basic', 'ctl', 'cancel', 'batch', 'handle', 'pool', 'multi', 'dist', 'adapter', 'life', 'barrier']
 
 
 def parse_races(output):
@@ -407,8 +407,16 @@ def check_property(pid, tier, seed):
                 holds.append(hp)
         cap = 1400 if tier == 'quick' else 24000
         if len(holds) > cap:
+            # windows at rarely visited labels first (tune.popped, reap.*, stopall.removed, ...), the common ones fill the rest
+            freq = {}
+            for hp in holds:
+                freq[hp['sched']['label']] = freq.get(hp['sched']['label'], 0) + 1
             rng.shuffle(holds)
-            holds = holds[:cap]
+            holds.sort(key=lambda hp: freq[hp['sched']['label']])
+            rare = [hp for hp in holds if freq[hp['sched']['label']] <= max(6, cap // 40)]
+            rest = [hp for hp in holds if freq[hp['sched']['label']] > max(6, cap // 40)]
+            rng.shuffle(rest)
+            holds = (rare + rest)[:cap]
         heps, hcr = vlib.run_episodes(binary, holds, scratch, gomaxprocs=1, tag='h')
         cov['hold_variants'] = len(heps)
         eps += heps
@@ -426,7 +434,7 @@ def check_property(pid, tier, seed):
         mark('free episodes done')
         all_eps = eps + feps
         for c in crashes + fcrashes:
-            all_eps.append({'prog': c['prog'], 'events': [], 'crash': crash_class(c['output']), 'crash_output': c['output'], 'header': {'ep': c['prog']['id']}, 'end': {'result': 'crash'}})
+            all_eps.append({'prog': c['prog'], 'events': sorted(c.get('events') or [], key=lambda x: x.get('seq', 0)), 'crash': crash_class(c['output']), 'crash_output': c['output'], 'header': {'ep': c['prog']['id']}, 'end': {'result': 'crash'}})
 
         def run_codec(tag):
             # payload fidelity: generated values of many Go types through the four adapter-backed bind methods
@@ -477,7 +485,7 @@ def check_property(pid, tier, seed):
                 break
             e = epmap[epid]
             choices = (e.get('end') or {}).get('choices') or []
-            rp = replay_prog(e['prog'], choices)
+            rp = replay_prog(e['prog'], choices) if choices else json.loads(json.dumps(e['prog']))
             again = None
             for attempt in range(1 if rp['sched']['kind'] != 'free' else 6):
                 if epid == 'C12codec':
@@ -490,7 +498,7 @@ def check_property(pid, tier, seed):
                 reps, rcr = vlib.run_episodes(binary, [rp], scratch, gomaxprocs=1 if rp['sched']['kind'] != 'free' else 0, workers=1, tag='r%d' % attempt)
                 cand = reps[0] if reps else None
                 if rcr:
-                    cand = {'prog': rp, 'events': [], 'crash': crash_class(rcr[0]['output']), 'header': {'ep': rp['id']}, 'end': {'result': 'crash'}}
+                    cand = {'prog': rp, 'events': sorted(rcr[0].get('events') or [], key=lambda x: x.get('seq', 0)), 'crash': crash_class(rcr[0]['output']), 'header': {'ep': rp['id']}, 'end': {'result': 'crash'}}
                 if cand is None:
                     continue
                 v, r2 = tlc_obs_confirm(scratch, cand, invs, '%s-%d' % (epid, attempt))
